@@ -322,6 +322,9 @@ func c19LeafStmtAt(fset *token.FileSet, st ast.Stmt, mapVar, group, root, prefix
 	return map[string]any{"g": group, "k": key, "c": fn.Name, "f": field, "x": rhs}
 }
 
+// `any` is an alias of `interface{}`: the two spellings are the same type.
+func c19IsStringMap(t string) bool { return t == "map[string]interface{}" || t == "map[string]any" }
+
 func c19Join(prefix, field string) string {
 	switch {
 	case prefix == "":
@@ -388,7 +391,7 @@ func c19WalkApply(fset *token.FileSet, file *ast.File, fd *ast.FuncDecl, prefix 
 					ix, ok1 := ta.X.(*ast.IndexExpr)
 					okShape := ok1 && c19Src(fset, ix.X) == rawName && is.Else == nil &&
 						len(as.Lhs) == 2 && c19Src(fset, is.Cond) == c19Src(fset, as.Lhs[1]) &&
-						c19Src(fset, ta.Type) == "map[string]interface{}"
+						c19IsStringMap(c19Src(fset, ta.Type))
 					g, ok2 := "", false
 					if ok1 {
 						g, ok2 = c19Lit(ix.Index)
